@@ -8,20 +8,27 @@ EXTENDS Control, Json, IOUtils
 
 Rec == ndJsonDeserialize(IOEnv.TRACE)
 
+(* Level B of the controller (Controller.tla): its operators are used, its variables are not *)
+Ctl == INSTANCE Controller WITH Forces <- {}, Envs <- {}, Window <- 0, TLen <- 1, Free <- TRUE, Policies <- {},
+                                MaxSteps <- 0, phase <- "trace", env <- <<0, 0>>, pol <- <<>>, cs <- [k |-> 0]
+
 VARIABLES l,        \* next line of Rec
           desc,     \* descriptor of the current case
           viol,     \* <<line, case, invariant>> of every Level-A failure
-          stats
-tvars == <<sp, end, tbl, under, prev, off0, l, desc, viol, stats>>
+          stats,
+          icp,      \* table index (idx_curr, 1-based) the next lookup starts from
+          adj       \* look-ahead of calc_speeds: ramp_up_time (s) * ramp_up_coeff (tenths)
+tvars == <<sp, end, tbl, under, prev, off0, l, desc, viol, stats, icp, adj>>
 
 Stats0 == [cases |-> 0, steps |-> 0, tables |-> 0, table_err |-> 0, runs_ok |-> 0, runs_err |-> 0,
            stepcaps |-> 0, walks |-> 0, walk_differs |-> 0, est_ok |-> 0, est_err |-> 0,
            disp_ok |-> 0, disp_err |-> 0, toy_tables |-> 0, drift |-> 0, skipped |-> 0,
-           dom_short |-> 0, dom_light |-> 0, panics |-> 0, harness_err |-> 0]
+           dom_short |-> 0, dom_light |-> 0, panics |-> 0, harness_err |-> 0,
+           lookups |-> 0, lookup_drift |-> 0, ctrl_runs |-> 0, ctrl_steps |-> 0, ctrl_drift |-> 0, ic_bad |-> 0]
 
 TInit == /\ l = 1 /\ viol = <<>> /\ stats = Stats0 /\ desc = [kind |-> "none"]
          /\ sp = << <<0, 0>> >> /\ end = 0 /\ tbl = <<>> /\ under = FALSE
-         /\ prev = <<>> /\ off0 = 0
+         /\ prev = <<>> /\ off0 = 0 /\ icp = 0 /\ adj = 0
 
 Names(checks) == LET F == SelectSeq(checks, LAMBDA c : ~c[2]) IN [i \in 1..Len(F) |-> F[i][1]]
 Report(names) == viol' = viol \o [i \in 1..Len(names) |-> <<l, Rec[l].case, names[i]>>]
@@ -30,22 +37,23 @@ Bump(f) == stats' = [stats EXCEPT ![f] = @ + 1]
 Begin == /\ Rec[l].ev = "begin"
          /\ desc' = Rec[l].desc
          /\ sp' = << <<0, 0>> >> /\ end' = 0 /\ tbl' = <<>> /\ under' = FALSE
-         /\ prev' = <<>> /\ off0' = 0
+         /\ prev' = <<>> /\ off0' = 0 /\ icp' = 0 /\ adj' = 0
          /\ Bump("cases")
          /\ UNCHANGED viol
 
 Header == /\ Rec[l].ev = "Header"
           /\ stats' = [stats EXCEPT !.dom_short = @ + (IF Rec[l].dom.short THEN 1 ELSE 0),
                                     !.dom_light = @ + (IF Rec[l].dom.light THEN 1 ELSE 0)]
-          /\ UNCHANGED <<sp, end, tbl, under, prev, off0, desc, viol>>
+          /\ adj' = Rec[l].ramp * Rec[l].coef10
+          /\ UNCHANGED <<sp, end, tbl, under, prev, off0, desc, viol, icp>>
 
 Build == /\ Rec[l].ev = "Build"
          /\ Report(Names(<< <<"EndOk", EndOkOf(Rec[l])>>, <<"NoInternalErr", NoInternalErrOf(Rec[l])>> >>))
-         /\ UNCHANGED <<sp, end, tbl, under, prev, off0, desc, stats>>
+         /\ UNCHANGED <<sp, end, tbl, under, prev, off0, desc, stats, icp, adj>>
 
 Skipped == /\ Rec[l].ev = "NetRejected"
            /\ Bump("skipped")
-           /\ UNCHANGED <<sp, end, tbl, under, prev, off0, desc, viol>>
+           /\ UNCHANGED <<sp, end, tbl, under, prev, off0, desc, viol, icp, adj>>
 
 (* the model's table of a toy case, in recorded units *)
 ToyTable == LET r == Recalc(desc.zones, desc["end"])
@@ -57,13 +65,30 @@ Table == /\ Rec[l].ev = "Table"
                  /\ Report(Names(<< <<"TableSafe", TableSafeOf(sp', end', tbl')>>,
                                     <<"TargetLeLimit", TargetLeLimitOf(tbl')>>,
                                     <<"TableMonotone", MonotoneOf(tbl')>> >>))
+                 /\ icp' = Len(tbl')                    \* recalc leaves idx_curr on the last point
                  /\ stats' = [stats EXCEPT !.tables = @ + 1,
                                            !.toy_tables = @ + (IF Rec[l].toy THEN 1 ELSE 0),
-                                           !.drift = @ + (IF Rec[l].toy /\ tbl' # ToyTable THEN 1 ELSE 0)]
-            ELSE /\ UNCHANGED <<sp, end, tbl>>
+                                           !.drift = @ + (IF Rec[l].toy /\ tbl' # ToyTable THEN 1 ELSE 0),
+                                           !.ic_bad = @ + (IF Rec[l].ic_ok /\ (tbl' = <<>> \/ Rec[l].ic = Len(tbl')) THEN 0 ELSE 1)]
+            ELSE /\ UNCHANGED <<sp, end, tbl, icp>>
                  /\ Report(Names(<< <<"EndOk", EndOkOf(Rec[l])>>, <<"NoInternalErr", NoInternalErrOf(Rec[l])>> >>))
                  /\ Bump("table_err")
-         /\ UNCHANGED <<under, prev, off0, desc>>
+         /\ UNCHANGED <<under, prev, off0, desc, adj>>
+
+(* Level B, exact part: the (limit, target) the code reports at step k is calc_speeds of the serialised table    *)
+(* at offset[k-1]: the logged idx_curr is where the catch-up `while` of calc_speeds stops when it starts from     *)
+(* the previous index (within the +-1 unit of offset rounding), the limit is that point's limit, the target the   *)
+(* minimum of the targets up to the look-ahead position offset + speed * ramp_up_time * ramp_up_coeff.           *)
+(* Positions are doubled because Controller!Catch / Look compare against half units.                             *)
+FarQ(p) == p[3] + (p[4] * adj) \div 10240                \* 2^6 per m, speed 2^16 per m/s, adj in tenths of a second
+LookupOk(pts, ic0, p, s) ==
+  LET ic == s[8] IN
+  /\ ic >= 1 /\ ic <= Len(pts) /\ ic0 >= 1 /\ ic0 <= Len(pts)
+  /\ \/ Ctl!Catch(pts, ic0, 2 * p[3]) = ic
+     \/ Ctl!Catch(pts, ic0, 2 * (p[3] + 1)) <= ic /\ ic <= Ctl!Catch(pts, ic0, 2 * (p[3] - 1))
+  /\ s[5] = pts[ic][2] /\ s[6] = pts[ic][3]
+  /\ \/ Ctl!Look(pts, ic, 2 * FarQ(p), pts[ic][4]) = s[7]
+     \/ Ctl!Look(pts, ic, 2 * (FarQ(p) + 2), pts[ic][4]) <= s[7] /\ s[7] <= Ctl!Look(pts, ic, 2 * (FarQ(p) - 2), pts[ic][4])
 
 (* a chunk of consecutive step records *)
 Steps == /\ Rec[l].ev = "Steps"
@@ -79,18 +104,30 @@ Steps == /\ Rec[l].ev = "Steps"
                                   <<"NoReverse",     \A j \in JP : NoReverseOf(P(j), S[j])>> >>))
                /\ prev' = S[Len(S)]
                /\ off0' = IF prev = <<>> THEN S[1][3] ELSE off0
-               /\ stats' = [stats EXCEPT !.steps = @ + Len(S)]
-         /\ UNCHANGED <<sp, end, tbl, under, desc>>
+               /\ icp' = S[Len(S)][8]
+               /\ stats' = [stats EXCEPT !.steps = @ + Len(S), !.lookups = @ + Cardinality(JP),
+                     !.lookup_drift = @ + Cardinality({j \in JP : ~LookupOk(tbl, IF j = 1 THEN icp ELSE S[j-1][8], P(j), S[j])})]
+         /\ UNCHANGED <<sp, end, tbl, under, desc, adj>>
 
 (* a new leg of a stop-and-go run: the step monitors restart from the state the library call left *)
 Stage == /\ Rec[l].ev = "Stage"
          /\ prev' = <<>>
-         /\ UNCHANGED <<sp, end, tbl, under, off0, desc, viol, stats>>
+         /\ UNCHANGED <<sp, end, tbl, under, off0, desc, viol, stats, icp, adj>>
+
+(* a scripted Controller.tla run on the real SpeedLimitTrainSim, in the model's units: compared step by step *)
+CtrlModel == LET pts == Recalc(desc.zones, desc["end"])[1]
+                 m == Ctl!RunSeq(pts, <<desc.r, desc.ramp>>, [Ctl!CS0 EXCEPT !.ic = Len(pts)], desc.pol, 1, desc.n)
+             IN [i \in 1..Len(m) |-> <<m[i].k, m[i].x, m[i].v, m[i].ic, m[i].ff, m[i].lim, m[i].tgt>>]
+Ctrl == /\ Rec[l].ev = "Ctrl"
+        /\ Report(Names(<< <<"EndOk", EndOkOf(Rec[l])>>, <<"NoInternalErr", NoInternalErrOf(Rec[l])>> >>))
+        /\ stats' = [stats EXCEPT !.ctrl_runs = @ + 1, !.ctrl_steps = @ + Len(Rec[l].s),
+                                  !.ctrl_drift = @ + (IF Rec[l].ok /\ Rec[l].exact /\ Rec[l].s = CtrlModel THEN 0 ELSE 1)]
+        /\ UNCHANGED <<sp, end, tbl, under, prev, off0, desc, icp, adj>>
 
 StepCap == /\ Rec[l].ev = "stepcap"
            /\ Report(<<"StepCap">>)
            /\ Bump("stepcaps")
-           /\ UNCHANGED <<sp, end, tbl, under, prev, off0, desc>>
+           /\ UNCHANGED <<sp, end, tbl, under, prev, off0, desc, icp, adj>>
 
 (* end of the harness-driven run *)
 Final == /\ Rec[l].ev = "Final"
@@ -98,7 +135,7 @@ Final == /\ Rec[l].ev = "Final"
                             <<"NoInternalErr", NoInternalErrOf(Rec[l])>>,
                             <<"StopWindow", Rec[l].ok => StopWindowOf(Rec[l], off0)>> >>))
          /\ Bump(IF Rec[l].ok THEN "runs_ok" ELSE "runs_err")
-         /\ UNCHANGED <<sp, end, tbl, under, prev, off0, desc>>
+         /\ UNCHANGED <<sp, end, tbl, under, prev, off0, desc, icp, adj>>
 
 (* the library's own walk() / walk_timed_path() on a clone *)
 Walk == /\ Rec[l].ev = "Walk"
@@ -106,29 +143,29 @@ Walk == /\ Rec[l].ev = "Walk"
                            <<"NoInternalErr", NoInternalErrOf(Rec[l])>>,
                            <<"StopWindow", Rec[l].ok => StopWindowOf(Rec[l], off0)>> >>))
         /\ stats' = [stats EXCEPT !.walks = @ + 1, !.walk_differs = @ + (IF Rec[l].same THEN 0 ELSE 1)]
-        /\ UNCHANGED <<sp, end, tbl, under, prev, off0, desc>>
+        /\ UNCHANGED <<sp, end, tbl, under, prev, off0, desc, icp, adj>>
 
 EstTimes == /\ Rec[l].ev = "EstTimes"
             /\ Report(Names(<< <<"EndOk", EndOkOf(Rec[l])>>, <<"NoInternalErr", NoInternalErrOf(Rec[l])>> >>))
             /\ Bump(IF Rec[l].ok THEN "est_ok" ELSE "est_err")
-            /\ UNCHANGED <<sp, end, tbl, under, prev, off0, desc>>
+            /\ UNCHANGED <<sp, end, tbl, under, prev, off0, desc, icp, adj>>
 
 Dispatch == /\ Rec[l].ev = "Dispatch"
             /\ Report(Names(<< <<"EndOk", EndOkOf(Rec[l])>>, <<"NoInternalErr", NoInternalErrOf(Rec[l])>> >>))
             /\ Bump(IF Rec[l].ok THEN "disp_ok" ELSE "disp_err")
-            /\ UNCHANGED <<sp, end, tbl, under, prev, off0, desc>>
+            /\ UNCHANGED <<sp, end, tbl, under, prev, off0, desc, icp, adj>>
 
 Panic == /\ Rec[l].ev \in {"panic", "abort", "timeout"}
          /\ Report(<<"NoPanic">>)
          /\ Bump("panics")
-         /\ UNCHANGED <<sp, end, tbl, under, prev, off0, desc>>
+         /\ UNCHANGED <<sp, end, tbl, under, prev, off0, desc, icp, adj>>
 
 End == /\ Rec[l].ev = "end"
        /\ stats' = [stats EXCEPT !.harness_err = @ + (IF Rec[l].result = "harness_err" THEN 1 ELSE 0)]
-       /\ UNCHANGED <<sp, end, tbl, under, prev, off0, desc, viol>>
+       /\ UNCHANGED <<sp, end, tbl, under, prev, off0, desc, viol, icp, adj>>
 
 TNext == /\ l <= Len(Rec) /\ l' = l + 1
-         /\ (Begin \/ Header \/ Build \/ Skipped \/ Table \/ Steps \/ Stage \/ StepCap \/ Final \/ Walk
+         /\ (Begin \/ Header \/ Build \/ Skipped \/ Table \/ Steps \/ Stage \/ Ctrl \/ StepCap \/ Final \/ Walk
              \/ EstTimes \/ Dispatch \/ Panic \/ End)
 TSpec == TInit /\ [][TNext]_tvars
 
